@@ -688,6 +688,9 @@ func (h *harnessRun) runPath(script []int, solver *Solver) (newWork [][]int) {
 		tb:        NewTB(),
 		locks:     make(map[*value]int),
 		onceDone:  make(map[*value]bool),
+		timers:    make(map[*value]bool),
+		syncMaps:  make(map[*value]*omap),
+		wg:        make(map[*value]int),
 		natives:   make(map[string]value),
 		trace:     e.Trace,
 		funcsSeen: make(map[*ssa.Function]bool),
